@@ -106,12 +106,12 @@ Print Assumptions C11_three_part_range_old_reading_refuted.
    execution `exec` leaves in that variable.
    _partial: if-statements (SIf) are in the executable model and in the correspondence, but not
    in this theorem (stmt_ok excludes them); the call site (lhs_k - out_k) is in the model only. *)
-Theorem C11_function_partial (F : positive -> Qc -> Qc) (T : table) (body : list stmt) (l : list cassign)
+Theorem C11_function_partial (F : positive -> Qc -> Qc) (T : table) (sq : bool) (body : list stmt) (l : list cassign)
         (rm rm' : menv) (rc : cenv) :
   table_ok T = true -> Forall stmt_ok body -> init_rel rm rc ->
-  tr_stmts T body = Ok l -> exec F body rm = Some rm' ->
+  tr_stmts T sq body = Ok l -> exec F body rm = Some rm' ->
   forall x, exists q, m_sc rm' x = VNum q /\ ca_eval F (apply_assigns l sigma0 x) rc = Some q.
-Proof. intros HT Hok Hi Htr Hex. exact (function_sound F T HT body l rm rc rm' Hok Hi Htr Hex). Qed.
+Proof. intros HT Hok Hi Htr Hex. exact (function_sound F T HT sq body l rm rc rm' Hok Hi Htr Hex). Qed.
 Print Assumptions C11_function_partial.
 
 (* the order of the unrolled assignments is what the theorem is about: for
@@ -137,7 +137,7 @@ Print Assumptions C11_function_order.
    class is "if-statement whose condition reads a variable it assigns, or whose branches assign
    in different orders" (if_wf in Proofs/C11_functions.v states the complement). *)
 Theorem C11_function_if_refuted :
-  match tr_stmts good_table [ifdep_stmt] with
+  match tr_stmts good_table false [ifdep_stmt] with
   | Ok l =>
       val_is (exec (fun _ q => q) [ifdep_stmt] ifdep_rm) 1%positive (-2) = true /\
       val_is (exec (fun _ q => q) [ifdep_stmt] ifdep_rm) 2%positive 1 = true /\
@@ -147,6 +147,18 @@ Theorem C11_function_if_refuted :
   end.
 Proof. exact ifdep_differs. Qed.
 Print Assumptions C11_function_if_refuted.
+
+(* ... and the repaired translation (fixes/C11_if_statement_sequential, seq_if = true) gives the
+   sequential result on that witness: a = -2, b = 1 *)
+Theorem C11_function_if_repaired_witness :
+  match tr_stmts good_table true [ifdep_stmt] with
+  | Ok l =>
+      qc_is (ca_eval (fun _ q => q) (apply_assigns l sigma0 1%positive) ifdep_rc) (-2) = true /\
+      qc_is (ca_eval (fun _ q => q) (apply_assigns l sigma0 2%positive) ifdep_rc) 1 = true
+  | Err _ => False
+  end.
+Proof. exact ifdep_repaired. Qed.
+Print Assumptions C11_function_if_repaired_witness.
 
 (* Array equations (vectors, matrices, slices A[lo:hi, k], A[:, k], A[k, :], v[lo:hi], + - .*,
    scalar * array, matrix product, transpose): if the generator produces the residual graph c for
